@@ -118,3 +118,55 @@ def streams(tier, seed):
 P = StreamProperty("C04", [ArithOracle, ConsistencyOracle], streams, RULE, ("C04",),
                    lambda ops: len(ops) == 3 and ops[0]["dims"] != ops[1]["dims"])
 run, replay = P.run, P.replay
+
+
+def narrow_dtype_scalars(seed):
+    """'with scalars … (on either side) the values equal NumPy's result': data stored as float32 / float16 / complex64 / int16 / uint8
+    with Python and NumPy scalars on the left and on the right of every operator — values AND dtype are NumPy's for the same
+    expression on the plain values, labels unchanged"""
+    import warnings, operator
+    import numpy as np
+    from common import dnp
+    fails, n_eval = [], 0
+    base = np.array([[1, 2, 3, 4], [5, 6, 7, 9], [10, 12, 15, 20]], dtype=float)
+    ops = {"add": operator.add, "sub": operator.sub, "mul": operator.mul, "truediv": operator.truediv}
+    for dtn in ("float32", "float16", "complex64", "int16", "uint8", "float64"):
+        vals = base.astype(dtn)
+        for sc_name, sc in (("int", 7), ("float", 2.5), ("complex", 1.5 - 2.0j), ("np.float32", np.float32(2.5)), ("np.int8", np.int8(3))):
+            for oname, op in ops.items():
+                for side in ("right", "left"):
+                    d = dnp.DNPData(vals.copy(), ["x", "y"], [np.arange(3.0), np.arange(4.0)])
+                    n_eval += 1
+                    with warnings.catch_warnings():
+                        warnings.simplefilter("ignore")
+                        with np.errstate(all="ignore"):
+                            try:
+                                want = op(vals, sc) if side == "right" else op(sc, vals)
+                            except Exception:  # noqa: BLE001
+                                continue
+                            try:
+                                got = op(d, sc) if side == "right" else op(sc, d)
+                            except Exception:  # noqa: BLE001  (an operand the object refuses is not a wrong value)
+                                continue
+                    gv = np.asarray(got.values) if isinstance(got, dnp.DNPData) else None
+                    if gv is None or gv.dtype != np.asarray(want).dtype or not np.array_equal(gv, want, equal_nan=True) or list(got.dims) != ["x", "y"]:
+                        key = "C04:scalar-operand-differs-from-numpy:%s:%s:%s" % (oname, side, dtn)
+                        fails.append({"key": key, "clause": key, "ops": [{"operator": oname, "scalar": sc_name, "side": side, "dtype": dtn,
+                                                                          "got_dtype": None if gv is None else str(gv.dtype), "want_dtype": str(np.asarray(want).dtype)}]})
+    seen, uniq = set(), []
+    for f in fails:
+        if f["key"] not in seen:
+            seen.add(f["key"]); uniq.append(f)
+    return uniq, n_eval
+
+
+_run_before_narrow = run
+
+
+def run(tier, seed, escalate=False):
+    res = _run_before_narrow(tier, seed, escalate)
+    f, n = narrow_dtype_scalars(seed)
+    res["impl_failures"] += [x for x in f if x["key"] not in {g["key"] for g in res["impl_failures"]}]
+    res["evaluations"] += n
+    res.setdefault("distribution", {})["narrow_dtype_scalar_cases"] = n
+    return res
